@@ -138,6 +138,7 @@ func main() {
 	nh := flag.Int("handlers", 150, "handler cases (chains)")
 	ngap := flag.Int("gap", 600, "height helper cases")
 	nsync := flag.Int("sync", 8, "two-node sync scenarios")
+	nlong := flag.Int("synclong", 0, "long honest one-block-per-response syncs (about 30 s each)")
 	in := flag.String("in", "", "replay: JSONL of records to re-run")
 	flag.Parse()
 	r := hx.NewRng(hx.SeedFromEnv())
@@ -178,5 +179,5 @@ func main() {
 	genGap(o, r, *ngap)
 	genHandlers(o, r, *nh)
 	genTemp(o)
-	genSync(o, r, *nsync)
+	genSync(o, r, *nsync, *nlong)
 }
